@@ -24,21 +24,30 @@ RULE = ('modules from tools/gen/irgen.py (seeded; all features incl. locals/para
         'globals, copyblob, undefined, float bit patterns, big constants) plus hand-made witnesses; per module one '
         'writer case (real dict vs model JSON) and one round-trip case (real from_json(to_json) vs model); '
         'non-trivial = module with at least one function whose real round trip terminates normally')
-EXPLANATION = ('Coq theorems about Model.IrJson (hand model of io.py, fixed configuration = /repo + fixes/C16-*.diff): '
-               'refutations of the round trip for the code as found (one well-formed witness per defect: 5 defects of '
-               'io.py + 3 of ir.py replace_use reached through the reader, all fixed in /repo now), unbounded round trip of types, byte blobs (bin2asc/asc2bin), '
-               'constants, externals and global variables WITH initial values, and the whole-module round trip on a '
-               'generated corpus of 19 modules incl. loops, shuffled block order, forward double uses and repeated forward call arguments (bounded, vm_compute). NOT proved: the '
-               'unbounded per-instruction and module-level theorems (reader state invariant with forward-reference '
-               'patching); they are covered only by the bounded theorem and the per-run correspondence.')
+EXPLANATION = ('Coq theorems about Model.IrJson (hand model of io.py; cfg_fixed = /repo now, all 8 defect switches on): '
+               'refutations of the round trip for the code as found (one well-formed witness per defect: 5 of io.py, 3 of '
+               'ir.py replace_use). Unbounded positives: types, byte blobs, constants, externals, global variables WITH '
+               'initial values; c16_instr_roundtrip (every one of the 18 instruction kinds read back in ANY reader state '
+               'with correct scopes, operands registered / pending / never seen); c16_register_spec (register_value + '
+               'replace_by = substitution of the placeholder everywhere); c16_instr_step_nodef/_def (each instruction '
+               'preserves the function invariant FInv: built prefix = original prefix with unregistered operands hidden '
+               'as placeholders, undefined_values covers them, forward-reference patching included); '
+               'c16_block_roundtrip (whole blocks); c16_reader_nonvacuous (hypotheses inhabited, with a pending '
+               'forward operand). Whole modules: c16_roundtrip_bounded (19 generated modules, vm_compute). NOT proved: the '
+               'unbounded function/module wrappers (parameters, the type pre-scan scan_value_types = vt, registration of '
+               'the subroutine name, externals/variables/subroutines folds) and the derivation of fun_ctx / seq_ok / the '
+               'initial FInv from wf_modul + ctor_ok_modul; note the unbounded module theorem needs ctor_ok_modul '
+               '(constructor type invariants of ppci.ir) besides wf_modul, since the reader re-runs the constructors.')
 TRUSTED = ['hand model coq/Model/IrJson.v (cross-checked against io.py on every run, both directions)',
            'tools/irimport.py (ppci.ir objects -> Coq syntax; ids in print order)',
            'json.dumps/json.loads are the identity on JSON values (floats: repr round-trips; NaN payloads excluded)',
            'Python dict lookup == first binding in an association list without duplicate keys']
 ASSUMPTIONS = ['well-formed = Spec.IRSyntax.wf_modul: names of parameters/values unique per function and disjoint from '
                'module-level names, block names unique and disjoint from value names',
-               'forward references (uses before definitions in print order) are only covered by the bounded corpus '
-               'theorem and the correspondence, not by an unbounded theorem']
+               'forward references are covered unboundedly up to whole blocks (FInv); at function/module level only by the '
+               'bounded corpus theorem and the correspondence',
+               'the reader re-runs the ppci.ir constructors, so the unbounded statements assume Spec.IRSyntax.ctor_ok_instr '
+               '(operand types, ptr addresses/callees, non-empty allocs, byte literals)']
 
 FLAGS = ('fix_value', 'fix_volatile', 'fix_copyblob', 'fix_undefined', 'fix_fwdtype',
          'fix_ru_generic', 'fix_ru_phi', 'fix_ru_call')
@@ -269,7 +278,7 @@ def run(ctx):
     logging.getLogger('verifier').setLevel(logging.ERROR)
 
     regen(ctx)
-    ok, _ = ctx.build(['Proofs/C16_irjson.vo'])
+    ok, _ = ctx.build(['Proofs/C16_irjson.vo', 'Proofs/C16_rd_func.vo'])
     if ok:
         ctx.check_props('Props/C16.v')
 
@@ -381,10 +390,12 @@ MANIFEST = {
             'CopyBlob/Undefined, rejected forward operands and hit three replace_use defects of ir.py (8 Coq refutations, '
             'each witness replayed on the implementation on every run; all fixed in /repo); '
             'on the repaired reader/writer model Coq proves (unbounded) the round trip of types, byte data, constants, '
-            'externals and initialised global variables, and checks the whole-module round trip by vm_compute on a '
-            'generated corpus (bounded); the unbounded instruction/module theorem is not proved',
+            'externals and initialised global variables, of every instruction kind in any scope-correct reader state, and '
+            'the preservation of the reader invariant (incl. forward-reference patching) by instructions and whole blocks; '
+            'whole modules are checked by vm_compute on a generated corpus (bounded); the unbounded function/module '
+            'wrappers are not proved',
     'note': 'trusted: hand model Model/IrJson.v (differentially checked against io.py on ~130 modules per run in both '
-            'directions), irimport, json text layer. Not proved: the unbounded module theorem with forward-reference '
-            'patching.',
+            'directions), irimport, json text layer. Not proved: function/module-level wrappers of the unbounded theorem '
+            '(parameters, type pre-scan, subroutine/global registration folds, bridging from wf_modul + ctor_ok_modul).',
     'technique': 'hand model + Coq proof + differential correspondence',
 }
